@@ -43,7 +43,7 @@ func C10(run *vf.Run) {
 		return
 	}
 	for _, side := range []string{`{"PRH", "PRB", "WREQ"}`, `{"PRSH", "PRSB", "WRESP"}`} {
-		txm.ReplayEdges(run, txm.MCOpts{Name: "body-edges", Engines: `{"On"}`, ReqLimits: vf.Pick(run, "{2}", "{2, 3}"), Ks: "{1, 2, 3}", Modes: `{"slice", "known", "unknown"}`,
+		txm.ReplayEdges(run, txm.MCOpts{Name: "body-edges", Engines: `{"On"}`, ReqLimits: "{2, 3}", Ks: "{1, 2, 3}", Modes: `{"slice", "known", "unknown"}`,
 			DisruptKinds: `{}`, Phases2: "{}", CallNames: side, Workers: 14, Timeout: vf.Pick(run, 15*time.Minute, 120*time.Minute),
 			Scales: vf.Pick(run, []txm.Scale{1, 4096}, []txm.Scale{1, 4096, 40000}), Relevant: bodyComponent})
 	}
